@@ -45,12 +45,12 @@ def gen_net(rng, version):
 
 
 def write_npd(rng, net, kinds, messy=True):
-    """an NPD spelling of the network: header lines in any order (ports before z0), comments, spacing"""
+    """an NPD spelling of the network: header lines in any order, the parameter list separated by commas or blanks, comments, spacing"""
     n = net['ports']
     sp = (lambda: rng.choice([' ', '  ', '\t'])) if messy else (lambda: ' ')
     blocks = [(net['param'], k) for k in kinds]
     hdr = [('version', '1.0'), ('ports', str(n)), ('frequencies', str(len(net['freqs']))),
-           ('parameters', ','.join((net['param'] if rng.random() < 0.5 else net['param'].upper()) + k for _, k in blocks))]
+           ('parameters', (rng.choice([',', ' ', '  ', '\t']) if messy else ',').join((net['param'] if rng.random() < 0.5 else net['param'].upper()) + k for _, k in blocks))]
     if messy and rng.random() < 0.5:
         hdr.append(('fprecision', str(rng.randint(1, 15))))
     if messy and rng.random() < 0.5:
@@ -58,8 +58,7 @@ def write_npd(rng, net, kinds, messy=True):
     z0line = ('z0', ' '.join('%s %sj' % (nfile.fmt_num(rng, z.real, 'r'), nfile.fmt_num(rng, z.imag, 'plus')) for z in net['z0']))
     if messy:
         rng.shuffle(hdr)
-        pos = rng.randint([k for k, x in enumerate(hdr) if x[0] == 'ports'][0] + 1, len(hdr))
-        hdr.insert(pos, z0line)
+        hdr.insert(rng.randint(0, len(hdr)), z0line)
     else:
         hdr.append(z0line)
     out = ['#NPD'] if not messy or rng.random() < 0.7 else []
